@@ -280,4 +280,30 @@ theorem expect_rows (env : Env) (phys : Nat → Str) (ts : List Tok) :
               have := ih t.srow t.ecol hrest i s h
               rwa [hidx] at this
 
+/-! ### the contract is decidable -/
+
+/-- `wfB` (Model/Trace, evaluated by the driver on the real tokenizer's output) decides `WF` -/
+theorem wfB_iff (env : Env) (phys : Nat → Str) (ts : List Tok) :
+    ∀ row col, wfB env phys row col ts = true ↔ WF env phys row col ts := by
+  induction ts with
+  | nil => intro row col; simp [wfB, WF]
+  | cons t ts ih =>
+    intro row col
+    unfold wfB WF
+    by_cases h0 : t.srow = 0
+    · rw [if_pos h0, if_pos h0]
+      exact ih row col
+    · rw [if_neg h0, if_neg h0]
+      by_cases he : t.kind = .endmarker
+      · rw [if_pos he, if_pos he]
+        simp
+      · rw [if_neg he, if_neg he]
+        cases hc : classify env t with
+        | none =>
+          simp only [Bool.and_eq_true, Bool.or_eq_true, beq_iff_eq, decide_eq_true_eq, Bool.not_eq_eq_eq_not,
+            Bool.not_true, List.contains_eq_mem, decide_eq_false_iff_not, ih, and_assoc]
+        | some th =>
+          simp only [Bool.and_eq_true, Bool.or_eq_true, beq_iff_eq, decide_eq_true_eq, Bool.not_eq_eq_eq_not,
+            Bool.not_true, List.contains_eq_mem, decide_eq_false_iff_not, ih, and_assoc]
+
 end Clikit.Trace
